@@ -263,10 +263,11 @@ func getUrl(_token Token, baseUrl string) (url pr.NamedString, attr pr.AttrData,
 	case pa.URL:
 		return parseURLToken(token.Value, baseUrl)
 	case pa.FunctionBlock:
-		if token.Name == "attr" {
+		name := utils.AsciiLower(token.Name)
+		if name == "attr" {
 			attr = checkAttrFunction(token, "url")
 			return
-		} else if L := len(token.Arguments); token.Name == "url" && (L == 1 || L == 2) {
+		} else if L := len(token.Arguments); name == "url" && (L == 1 || L == 2) {
 			val, _ := (token.Arguments)[0].(pa.String)
 			return parseURLToken(val.Value, baseUrl)
 		}
@@ -452,7 +453,7 @@ func getString(_token Token) (out pr.ContentProperty) {
 	case pa.String:
 		return pr.ContentProperty{Type: "string", Content: pr.String(token.Value)}
 	case pa.FunctionBlock:
-		switch token.Name {
+		switch utils.AsciiLower(token.Name) {
 		case "attr":
 			attr := checkAttrFunction(token, "string")
 			if attr.IsNone() {
